@@ -163,7 +163,7 @@ def theorem_names(path):
         if m and ns and ns[-1] == m.group(1):
             ns.pop()
             continue
-        m = re.match(r'^(?:@\[[^\]]*\]\s*)?(?:protected\s+|private\s+)?theorem\s+(\S+)', line)
+        m = re.match(r'^(?:@\[[^\]]*\]\s*)?(?:protected\s+)?theorem\s+(\S+)', line)
         if m:
             names.append('.'.join(ns + [m.group(1)]))
     return names
